@@ -97,7 +97,10 @@ type VJob struct {
 	HasMin                      bool
 	Min                         RL
 }
-type VTask struct{ ID, Job, CPU, Mem, GPU, Status int64 }
+type VTask struct {
+	ID, Job, CPU, Mem, GPU, Status int64
+	Gated bool // the pod carries a (non-Volcano) scheduling gate; not part of the vote-case wire format
+}
 type VReq struct{ CPU, Mem, GPU int64 }
 type VQuery struct {
 	Kind   int64 // 1 Allocatable 2 Overused 3 Preemptive 4 JobEnqueueable
@@ -179,7 +182,7 @@ func decVSpec(t *sched.Tok) VSpec {
 		s.Jobs = append(s.Jobs, j)
 	})
 	t.List(func() {
-		s.Tasks = append(s.Tasks, VTask{t.Next(), t.Next(), t.Next(), t.Next(), t.Next(), t.Next()})
+		s.Tasks = append(s.Tasks, VTask{ID: t.Next(), Job: t.Next(), CPU: t.Next(), Mem: t.Next(), GPU: t.Next(), Status: t.Next()})
 	})
 	s.Enqueue = t.Ints()
 	s.Q1 = decQueries(t)
@@ -298,7 +301,14 @@ func openVotes(s VSpec) *voteWorld {
 		if t.Status != sched.SPending {
 			ts.Node = 99 // a node that is not in the cluster: queue plugins only read the job side
 		}
-		ti := api.NewTaskInfo(ts.Pod())
+		pod := ts.Pod()
+		if t.Gated {
+			pod.Spec.SchedulingGates = []v1.PodSchedulingGate{{Name: "example.com/hold"}}
+		}
+		ti := api.NewTaskInfo(pod)
+		if t.Gated && !ti.SchGated {
+			panic("scheduling gate not reflected in TaskInfo.SchGated (PodSchedulingReadiness off?)")
+		}
 		if ji, ok := snap.Jobs[ti.Job]; ok {
 			ji.AddTaskInfo(ti)
 		}
